@@ -201,9 +201,23 @@ Definition active_objects (s : dset) : option (list okey) :=
   if is_archived s then Some [] else
   if is_nil (os_ctrlof (ds_set s)) && negb (ds_ctrlset s) then None else Some (os_ctrlof (ds_set s)).
 
+(** ObjectSlices. A phase lists inline objects and names of ObjectSlices (ObjectSetTemplatePhase.Slices). The
+    slice names of a phase are encoded as trailing entries of the pseudo kind [KSliceRef] in [ph_objects]
+    (po_name = name of the slice), so that specs are compared and copied with their slice references. *)
+Definition KSliceRef : N := 9.
+Definition is_ref (p : pobj) : bool := po_gk p =? KSliceRef.
+Definition slice_refs (s : dset) : list N := map po_name (filter is_ref (all_objects (ds_set s))).
+
 (** adapter_objectset.go:60-79 getObjects: the objects inlined in the phases, namespace defaulted to the
-    ObjectSet's; objects in ObjectSlices are not looked at (F-C14). *)
-Definition set_objects (s : dset) : list okey := map (spec_key (ds_set s)) (all_objects (ds_set s)).
+    ObjectSet's; objects in ObjectSlices are not looked at (second half of F-C14). *)
+Definition set_objects (s : dset) : list okey :=
+  map (spec_key (ds_set s)) (filter (fun p => negb (is_ref p)) (all_objects (ds_set s))).
+
+(** What the revision really contains: the inline objects and the objects of the referenced slices
+    ([slices]: the ObjectSlices of the deployment's namespace by name). *)
+Definition full_objects (slices : N -> option (list pobj)) (s : dset) : list okey :=
+  set_objects s ++
+  flat_map (fun n => match slices n with Some objs => map (spec_key (ds_set s)) objs | None => [] end) (slice_refs s).
 
 (** archive_reconciler.go:211-223 intersection *)
 Definition inter_keys (a b : list okey) : list okey := filter (fun x => existsb (okey_eqb x) a) b.
@@ -251,6 +265,11 @@ Section Pass.
   Variable hash : N -> option N -> N.
   (** An API fault injected at the n-th request (0-based, reads included) of a pass; true = response lost. *)
   Variable fault : option (nat * bool).
+  (** The ObjectSlices of the deployment's namespace (never written by this controller), and the variant of the
+      archive reconciler: false = getObjects as it is (inline objects only), true = the repaired getter, which
+      reads the referenced ObjectSlices (one Get each; a missing slice is an error). *)
+  Variable slices : N -> option (list pobj).
+  Variable sliceaware : bool.
 
   Inductive fk := FGo | FErr | FLost.
   Definition fault_now (st : pst) : fk :=
@@ -266,6 +285,11 @@ Section Pass.
   Definition read_req (st : pst) : pst :=
     if p_dead st then st else
     match fault_now st with FGo => emit st (p_w st) [] false | _ => emit st (p_w st) [] true end.
+
+  (** Get of an object that may be missing: NotFound is an error of the pass. *)
+  Definition get_req (st : pst) (found : bool) : pst :=
+    if p_dead st then st else
+    match fault_now st with FGo => emit st (p_w st) [] (negb found) | _ => emit st (p_w st) [] true end.
 
   (** client.Update of an ObjectSet read in this pass; the response refreshes the in-memory object. Delete does
       not: an ObjectSet whose deletion this pass requested is stale in memory (Conflict) or gone (NotFound).
@@ -420,15 +444,21 @@ Section Pass.
         else archive_all_later st mem cur r
     end.
 
+  (** The repaired getObjects: one Get per referenced ObjectSlice. *)
+  Definition load_slices_req (st : pst) (s : dset) : pst :=
+    fold_left (fun st n => get_req st (match slices n with Some _ => true | None => false end)) (slice_refs s) st.
+  Definition seen_objects (s : dset) : list okey := if sliceaware then full_objects slices s else set_objects s.
+
   (** intermediateRevisionCanBeArchived (:153-190) *)
   Definition intermediate (st : pst) (mem : list dset) (prev cur : dset) : pst * list dset * bool :=
-    let latest_objs := set_objects cur in
+    let st0 := if sliceaware then load_slices_req st cur else st in      (* :156 getObjects *)
+    let latest_objs := seen_objects cur in
     match active_objects prev with
-    | None => (st, mem, false)                                                       (* :162-166 *)
+    | None => (st0, mem, false)                                                      (* :162-166 *)
     | Some act =>
         if is_nil (inter_keys latest_objs act) && negb (is_available prev)           (* :179-180 *)
-        then ensure_paused st mem prev
-        else (st, mem, false)
+        then ensure_paused st0 mem prev
+        else (st0, mem, false)
     end.
 
   (** objectSetsToBeArchived (:72-124): the loop runs from the newest revision downwards; [rl] is the list of
@@ -569,6 +599,8 @@ Inductive step :=
 
 Section Run.
   Variable hash : N -> option N -> N.
+  Variable slices : N -> option (list pobj).
+  Variable sliceaware : bool.
 
   Definition rev_step (w : dworld) (n : N) : dworld :=
     let sw := to_sworld w in
@@ -589,7 +621,7 @@ Section Run.
                  (negb (dg =? d_digest (dw_dep w)) || negb (phases_eqb phs (d_phases (dw_dep w))))
     | SPause b => edit_dep w (fun d => set_paused d b) (negb (Bool.eqb b (d_paused (dw_dep w))))
     | SLimit l => edit_dep w (fun d => set_limit d l) (negb (option_eqb Z.eqb l (d_limit (dw_dep w))))
-    | SDep stale fault => let '(w', _, _) := dep_pass hash fault stale w in w'
+    | SDep stale fault => let '(w', _, _) := dep_pass hash fault slices sliceaware stale w in w'
     | SSet force n =>
         let '(sw', _, _) := objectset_pass force (to_sworld w) (set_kind w) (oi_ns (d_id (dw_dep w))) n in of_sworld w sw'
     | SRev n => rev_step w n
